@@ -789,7 +789,144 @@ fn stream_case(c: &mut Ctx, fam: &str, idx: u64) {
     c.count("stream_cases", 1);
 }
 
+/// A service that says it is EDNS aware in every response, whatever the request looked like.
+#[derive(Clone)]
+struct OptSvc;
+
+impl Service<Vec<u8>, ()> for OptSvc {
+    type Target = Vec<u8>;
+    type Stream = Iter<std::vec::IntoIter<ServiceResult<Vec<u8>>>>;
+    type Future = Pin<Box<dyn Future<Output = Self::Stream> + Send>>;
+    fn call(&self, req: Request<Vec<u8>, ()>) -> Self::Future {
+        Box::pin(async move {
+            let qname: Vec<u8> = match req.message().sole_question() {
+                Ok(q) => q.qname().to_vec().as_slice().to_vec(),
+                Err(_) => vec![0],
+            };
+            let (_, n) = plan_of(&qname);
+            let item = build_response(&req, n.min(1500), 0).and_then(|cr| {
+                let (resp, fb) = cr.into_inner();
+                let mut resp = resp.ok_or(ServiceError::InternalError)?;
+                resp.opt(|o| {
+                    o.set_udp_payload_size(1232);
+                    Ok(())
+                })
+                .map_err(|_| ServiceError::InternalError)?;
+                let _ = fb;
+                Ok(CallResult::new(resp))
+            });
+            futures_util::stream::iter(vec![item])
+        })
+    }
+}
+
+/// The mandatory middleware alone in front of a service that attaches an OPT record to every
+/// response: a requester that sent no OPT record never gets more than 512 octets (RFC 1035 4.2.1),
+/// whatever the response carries. (Honouring the size an EDNS requester advertises is the job of
+/// the EDNS middleware, which this stack leaves out; EDNS requests are only judged for being
+/// answered once, with their ID and question, and not above the configured limit.)
+fn udp_bare_case(c: &mut Ctx, fam: &str, idx: u64) {
+    let mut rng = c.case_rng(fam, idx);
+    let configured = *rng.pick(&[Some(512u16), Some(1232), Some(1232), Some(4096), None]);
+    let n = rng.range(1, 10);
+    let mut reqs: Vec<(Req, SocketAddr)> = Vec::new();
+    for k in 0..n {
+        let addr: SocketAddr = format!("192.0.2.{}:{}", 1 + rng.below(200), 2048 + k).parse().unwrap();
+        let edns = *rng.pick(&[None, None, None, Some(512u16), Some(1232), Some(4096)]);
+        let per = 41 + 10 + (3 + format!("q{}", k).len() + 1 + 6);
+        let target = *rng.pick(&[100usize, 480, 500, 512, 540, 700, 1200, 1232, 1260, 4000, 4200]);
+        let label = format!("s{}", (target / per).max(1) + rng.below(2));
+        reqs.push((mk_req(rng.u16(), &label, k, edns), addr));
+    }
+    let ex = json!({"stack": "MandatoryMiddlewareSvc(service that always attaches OPT)", "configured_max_response_size": configured, "requests": reqs.iter().map(|(r, a)| json!({"what": r.what, "addr": a.to_string(), "wire": hex(&r.wire)})).collect::<Vec<_>>()});
+    let sock = Arc::new(MockUdp { inq: Mutex::new(VecDeque::new()), notify: tokio::sync::Notify::new(), sent: Mutex::new(vec![]) });
+    let rt = tokio::runtime::Builder::new_current_thread().enable_all().start_paused(true).build().unwrap();
+    let sock2 = sock.clone();
+    let reqs2 = reqs.clone();
+    let _ = ctx::take_any_panic();
+    let r = ctx::catch(|| {
+        rt.block_on(async move {
+            let mut cfg = dgram::Config::new();
+            cfg.set_max_response_size(configured);
+            let svc: MandatoryMiddlewareSvc<Vec<u8>, OptSvc, ()> = MandatoryMiddlewareSvc::new(OptSvc);
+            let srv = Arc::new(DgramServer::with_config(ArcSock(sock2.clone()), VecBufSource, svc, cfg));
+            let s2 = srv.clone();
+            let h = tokio::spawn(async move { s2.run().await });
+            for (r, a) in reqs2.iter() {
+                sock2.inq.lock().unwrap().push_back((r.wire.clone(), *a));
+                sock2.notify.notify_one();
+            }
+            tokio::time::sleep(Duration::from_secs(5)).await;
+            let _ = srv.shutdown();
+            let _ = tokio::time::timeout(Duration::from_secs(5), h).await;
+        })
+    });
+    drop(rt);
+    if let Err(pi) = r {
+        c.violation(&format!("panic:{}", pi.site()), &format!("panic in the datagram server: {} at {}:{}", pi.msg, pi.file, pi.line), c.replay_of(fam, idx, ex));
+        return;
+    }
+    if let Some(pi) = ctx::take_any_panic() {
+        c.violation(&format!("panic:{}", pi.site()), &format!("a task of the datagram server panicked: {} at {}:{}", pi.msg, pi.file, pi.line), c.replay_of(fam, idx, ex));
+        return;
+    }
+    let sent = sock.sent.lock().unwrap().clone();
+    for (ri, (r, addr)) in reqs.iter().enumerate() {
+        let mine: Vec<&Vec<u8>> = sent.iter().filter(|(_, a)| a == addr).map(|(m, _)| m).collect();
+        let rp = |c: &Ctx, more: serde_json::Value| c.replay_of(fam, idx, json!({"ctx": ex, "request": ri, "more": more}));
+        if mine.len() != 1 {
+            c.violation(&format!("udp-bare-responses:{}-instead-of-1", mine.len()), &format!("request {} ({}) got {} responses", ri, r.what, mine.len()), rp(c, json!({})));
+            return;
+        }
+        let m = mine[0];
+        let Ok(pm) = w::parse_message(m) else {
+            c.violation("udp-response-unparsable", &format!("the response to request {} ({}) cannot be parsed", ri, r.what), rp(c, json!({"response": hex(m)})));
+            return;
+        };
+        if pm.id != r.id || pm.flags & 0x8000 == 0 || pm.questions.len() != 1 || w::lower(&pm.questions[0].name) != w::lower(&r.qname) {
+            c.violation("udp-response-not-for-request", &format!("the response sent to the address of request {} does not carry its ID and question", ri), rp(c, json!({"response": hex(m)})));
+            return;
+        }
+        let (_, nrec) = plan_of(&r.qname);
+        let answers = pm.records.iter().filter(|x| x.section == 1).count();
+        let tc = pm.flags & 0x0200 != 0;
+        if answers < nrec.min(1500) && !tc {
+            c.violation("udp-dropped-without-tc", &format!("the response carries {} of the {} records the service produced and TC is clear", answers, nrec), rp(c, json!({"response_len": m.len()})));
+            return;
+        }
+        match r.edns {
+            None => {
+                if m.len() > 512 {
+                    c.violation("udp-size:no-edns:response-carries-opt", &format!("a UDP response of {} octets (TC {}) to a request without an OPT record; the service attached an OPT record to its response and no EDNS middleware is in the chain", m.len(), tc), rp(c, json!({"response_len": m.len()})));
+                    return;
+                }
+                c.count(if tc { "udp_bare_no_edns_truncated" } else { "udp_bare_no_edns_complete" }, 1);
+            }
+            Some(_) => {
+                if let Some(cfgd) = configured {
+                    if m.len() > (cfgd as usize).max(512) {
+                        c.violation("udp-size:bare:above-configured", &format!("a UDP response of {} octets; the configured maximum is {}", m.len(), cfgd), rp(c, json!({"response_len": m.len()})));
+                        return;
+                    }
+                }
+                c.count("udp_bare_edns_requests_size_not_judged_against_requester", 1);
+            }
+        }
+        c.eval(&("udp-bare", r.edns, configured, tc, m.len() / 128));
+    }
+    c.count("udp_bare_cases", 1);
+}
+
 pub fn run(c: &mut Ctx) {
+    let fam = "udp-bare";
+    let total = c.total(4_000, 100_000);
+    for idx in c.cases(fam, total) {
+        if c.out_of_time() {
+            break;
+        }
+        ctx::slot_write(idx, "C16 udp-bare", &[]);
+        udp_bare_case(c, fam, idx);
+    }
     let fam = "udp";
     let total = c.total(20_000, 600_000);
     for idx in c.cases(fam, total) {
@@ -809,7 +946,7 @@ pub fn run(c: &mut Ctx) {
         stream_case(c, fam, idx);
     }
     if !c.replaying() {
-        for k in ["udp_cases", "udp_complete_answers", "udp_truncated_answers", "udp_hostile_requests", "udp_service_failures_answered", "stream_cases", "stream_connections_checked", "stream_multi_responses", "stream_aborted_connections"] {
+        for k in ["udp_cases", "udp_complete_answers", "udp_truncated_answers", "udp_hostile_requests", "udp_service_failures_answered", "stream_cases", "stream_connections_checked", "stream_multi_responses", "stream_aborted_connections", "udp_bare_no_edns_truncated", "udp_bare_no_edns_complete"] {
             c.floor(k, 3);
         }
     }
